@@ -1669,7 +1669,10 @@ func SelectStrategy(n *nfa.NFA, re *syntax.Regexp, literals *literal.Seq, config
 	nfaSize := n.States()
 	litAnalysis := analyzeLiterals(literals, config)
 	litAnalysis.hasAnchors = hasAnchorAssertions(re)
-	litAnalysis.hasNonLineAnchors = litAnalysis.hasAnchors && hasNonLineAnchors(re)
+	// (?m)^ counts as a plain line anchor only in front of every alternative: the
+	// literal engines check "literal at a line start", which is not what
+	// `(?m)^foo|bar` or `(?m)foo^bar` ask for.
+	litAnalysis.hasNonLineAnchors = litAnalysis.hasAnchors && (hasNonLineAnchors(re) || !lineAnchorLeadsEveryBranch(re))
 
 	// Check for simple char_class+ patterns (HIGHEST priority for character class patterns)
 	// Patterns like [\w]+, [a-z]+, \d+ use CharClassSearcher: 14-17x faster than BoundedBacktracker
